@@ -59,7 +59,7 @@ func (tx *Tx) SignatureHashForInput(nInput int, prevOutScript []byte, sigHashTyp
 	// https://github.com/bitcoin/bitcoin/blob/master/src/test/sighash_tests.cpp#L29
 	// https://github.com/bitcoin/bitcoin/blob/master/src/test/sighash_tests.cpp#L60
 	if nInput >= len(tx.Inputs) || (sigHashSingle && nInput >= len(tx.Outputs)) {
-		hashed[31] = 1
+		hashed[0] = 1
 		return
 	}
 
